@@ -93,6 +93,7 @@ type runner struct {
 	mutBy         map[int]int
 	recovering    bool
 	stopObservers bool
+	rotted        bool
 }
 
 func (r *runner) probe(name string) {
@@ -410,6 +411,12 @@ func (r *runner) ensureOpen() bool {
 			r.probe("open-failed-by-fault")
 			return false
 		}
+		if r.rotted {
+			// damaged data may be reported at Open as well; the run ends here
+			r.probe("open-failed-after-rot")
+			r.pos = 1 << 30
+			return false
+		}
 		r.viol("open", "open-failed", fmt.Sprintf("Open failed: %v", err))
 		return false
 	}
@@ -502,7 +509,7 @@ func (r *runner) scanAll(oracle string) {
 			msg = cur.Step(mv, true, it.Key(), it.Value())
 		} else {
 			if err := it.Error(); err != nil {
-				if !(r.faulty && isInjected(err)) {
+				if !(r.faulty && isInjected(err)) && !r.rotted {
 					r.viol(oracle, oracle+":iter-error", fmt.Sprintf("full scan after reopen failed: %v", err))
 				}
 				break
@@ -720,7 +727,7 @@ func (r *runner) view(op *Op, tx *txCtx) (View, string, bool) {
 }
 
 func (r *runner) readErr(oracle string, what string, err error) {
-	if r.faulty && (isInjected(err) || r.errFaultsFired() > 0) {
+	if r.faulty && (isInjected(err) || r.errFaultsFired() > 0 || r.rotted) {
 		// after injected storage faults a read may fail; it must not lie
 		r.probe("read-failed")
 		return
@@ -1123,6 +1130,21 @@ func (r *runner) execOp(op *Op, tx *txCtx) {
 		}
 	case "heal":
 		r.disk.Healed = true
+	case "rot":
+		// bit rot at rest: close cleanly, alter bytes inside table data
+		// blocks, reopen. From here on a read may fail (checksums are on by
+		// default) but must never return a wrong value.
+		r.closeDB()
+		r.resetFailed()
+		r.disk.NextEpoch(simdisk.ImagePowerLoss, 0, false)
+		simrt.SetEpoch(r.disk.Epoch + 1000)
+		dm := r.applyDamage(&Damage{Current: "keep", Manifest: "keep", Blocks: op.Slot, BlockSel: uint64(op.Ms) + 1, Frac: uint32(op.Ms)})
+		if len(dm) > 0 {
+			r.rotted = true
+			r.faulty = true
+			r.probe("bit-rot")
+			r.out.Fired["bitrot/table"] += len(dm)
+		}
 	case "stats":
 		var st leveldb.DBStats
 		r.db.Stats(&st)
